@@ -60,6 +60,7 @@
 #define OP_WALK 9       /* C03: complete walk, twice */
 #define OP_WALK_AFTER 10 /* C03: abandon a walk after j steps, one put/remove, complete walk */
 #define OP_NEAREST 11   /* C04 */
+#define OP_SELFCHECK 12 /* C02: qtreetbl_check() agrees with the independent checker on a given (possibly invalid) coloured tree */
 
 #ifdef VF_ALLOCFAIL
 #define VF_AF 1
@@ -519,6 +520,19 @@ void vf_harness(void) {
         VF_ASSERT(tid_inv(t), "C03.inv.partial: an abandoned walk preserves the traversal invariant");
         VF_ASSERT(tree_matches(t), "C03.partial.pure: an abandoned walk does not change keys, values or count");
     }
+#elif VF_OP == OP_SELFCHECK
+    {
+#ifndef VF_VALID
+#define VF_VALID 1
+#endif
+        bool mine = llrb_valid(t);
+        int lib = qtreetbl_check(t);
+        VF_ASSERT(mine == (VF_VALID != 0), "C02.selfcheck.oracle: the independent checker classifies this coloured tree as the generator does");
+        VF_ASSERT((lib == 0) == (VF_VALID != 0), "C02.selfcheck.agree: the library's qtreetbl_check() accepts exactly the valid left-leaning red-black trees");
+        t->root = NULL; t->num = 0; /* the (possibly invalid) tree is released by hand below */
+        for (size_t i = 0; i < VF_N; i++) { free(nd[i]->name); free(nd[i]->data); free(nd[i]); }
+        imn = 0;
+    }
 #elif VF_OP == OP_NEAREST
     {
         VF_ASSUME(tid_inv(t));
@@ -573,7 +587,9 @@ void vf_harness(void) {
     /* ---------- cross-cutting ---------- */
 #ifdef VF_SHAPECHK
     VF_ASSERT(llrb_valid(t), FP2 "shape.llrb: after the operation the tree is a valid left-leaning red-black tree (black root, no red-red, equal black height, no right-leaning lone red)");
+#ifdef VF_LIBCHK
     VF_ASSERT(qtreetbl_check(t) == 0, FP2 "shape.selfcheck: the library's qtreetbl_check() agrees");
+#endif
 #endif
     VF_ASSERT(vf_lock_depth == depth0, "C14.tree.lock: the operation returns with the table lock released");
     (void)n0;
